@@ -121,6 +121,17 @@ def run(ctx, rep):
     rr = rep.rule("R.reach", "each validator is reached from Chart.from_file on every path of its caller and its ValueError "
                              "escapes: no handler for ValueError/Exception/bare encloses any call on the chain", floor=5)
     escape.check_reach_and_escape(ctx, rr, T)
+    rbv = rep.rule("R.tempo-value", "the tempo the zero/positive guard sees is the written one: bpm = int(raw)/1000 (no clamp, floor or "
+                                    "default between the line and the guard)", floor=1)
+    from .decode import check_bpm_value, check_from_chart_line
+    from .lang import check_line_recogniser
+    check_bpm_value(ctx, rbv, T)
+    rtl = rep.rule("R.tempo-lines", "every canonical tempo line '<tick> = B <n>' (n from 0, any digit count) reaches the builder: a dropped "
+                                    "tempo line is a zero tempo, a repeated or backward tick that is never seen by its guard", floor=4)
+    BQ = "chartparse.sync.BPMEvent.ParsedData"
+    info = check_from_chart_line(ctx, rtl, BQ)
+    if info is not None:
+        check_line_recogniser(ctx, BQ, info, rtl, rtl, rtl, only={"canon", "capture", "groups"})
     rres = rep.rule("R.resolution-field", "the resolution the validators see is the integer written on the [Song] Resolution line: the "
                                           "field's converter is int and its recogniser captures digits only (no default, clamp or "
                                           "fallback between the file and the positive-resolution guard)", floor=3)
